@@ -235,7 +235,7 @@ func genOne(r *rng.R, idx int, seed uint64, mode string, gated, concrete bool, t
 func genParams(tier string, seed uint64) []Params {
 	r := rng.New(seed)
 	var out []Params
-	nC, nA, nN := 260, 110, 150
+	nC, nA, nN := 200, 90, 110
 	if tier == "thorough" {
 		nC, nA, nN = 2600, 900, 1200
 	}
@@ -365,6 +365,31 @@ func coqObs(o outcome, concrete bool) string {
 		pre, b2c(o.res.ClosedUp), pre, b2c(o.res.ClosedDown), pre, b2c(o.res.Timeout))
 }
 
+// hexChunks renders a trace literal as a list of string literals of at most ~3000 characters,
+// cut behind a ';' (one very long literal can exhaust coqc's stack).
+func hexChunks(t string) string {
+	var parts []string
+	for len(t) > 0 {
+		n := len(t)
+		if n > 3000 {
+			n = 3000
+			if i := strings.LastIndexByte(t[:n], ';'); i >= 0 {
+				n = i + 1
+			} else if i := strings.IndexByte(t, ';'); i >= 0 {
+				n = i + 1 // a single label longer than the limit stays whole
+			} else {
+				n = len(t)
+			}
+		}
+		parts = append(parts, "\""+t[:n]+"\"%hex")
+		t = t[n:]
+	}
+	if len(parts) == 0 {
+		return "(@nil hexs)"
+	}
+	return "[" + strings.Join(parts, ";\n      ") + "]"
+}
+
 func coqFraming(p Params) string {
 	if p.Mode != "uphttp" && p.Mode != "uphttps" {
 		return "(mkFr false 0 true)"
@@ -381,7 +406,7 @@ func coqCase(o outcome, graceNs int64) string {
 		if !p.Concrete {
 			fn = "patrace"
 		}
-		tr := fmt.Sprintf("(%s \"%s\")", fn, traceString(o.built.Labels, p.Concrete))
+		tr := fmt.Sprintf("(%s %s)", fn, hexChunks(traceString(o.built.Labels, p.Concrete)))
 		ok := len(o.built.Problems) == 0
 		if p.Concrete {
 			fmt.Fprintf(&sb, "{| cc_mode := %d; cc_wellformed := %s; cc_grace := (%d)%%Z; cc_fr := %s; cc_early := %s; cc_skip := %s; cc_kept := %s;\n   cc_trace := %s;\n   cc_obs := %s |}",
